@@ -23,10 +23,14 @@ type Director struct {
 	name string
 	on   map[string]bool // oracle groups (property ids) that report in this scenario
 	n    int
+	// faultWithdrawOnly: storage errors are armed only while a withdrawal is in flight
+	faultWithdrawOnly bool
 	// lastNonce per identity (director-side monotone nonces)
 	lastNonce map[string]int64
 	// lastOld: argument list of the identity's last accepted old-format keep-alive (for replays)
 	lastOld map[string][]interface{}
+	// tamper: node id placed in the unsigned peers_info of an old-format keep-alive
+	tamper string
 	// desync: an operation the model knows nothing about took effect (an
 	// altered request was accepted while the deciding oracle belongs to
 	// another property): the run ends quietly
@@ -152,6 +156,22 @@ func (d *Director) ledger() ledgerSnap {
 		panic("ledger read: " + err.Error())
 	}
 	return ledgerSnap{st, g}
+}
+
+// balances is the stored credit of every actor and wallet (inner store, no yields, no injected faults).
+func (d *Director) balances() string {
+	var b strings.Builder
+	for _, a := range d.W.Actors {
+		bal, err := d.W.Inner.GetNodeBalance(store.NodeID(a.ID))
+		if err == nil {
+			fmt.Fprintf(&b, "%s: %s\n", a.Name, balStr(bal))
+		}
+	}
+	for _, wl := range d.W.Wallets {
+		bal, _ := d.W.Inner.GetAccountBalance(store.Account(wl.Addr))
+		fmt.Fprintf(&b, "%s: %s\n", wl.Name, balStr(bal))
+	}
+	return b.String()
 }
 
 // checkLedger: after an operation that returned, the sum is unchanged
@@ -388,6 +408,14 @@ func (d *Director) UpdateOld(a *Actor, reported []string, block uint64) (*pool.U
 	return d.update(a, reported, block, true)
 }
 
+// UpdateOldTampered sends a keep-alive whose deprecated-format signature covers (peers, block_number)
+// while its unsigned peers_info names tampered: the pool may act on the signed content only.
+func (d *Director) UpdateOldTampered(a *Actor, signedPeers []string, tampered string, block uint64) (*pool.UpdateResponse, error) {
+	d.tamper = tampered
+	defer func() { d.tamper = "" }()
+	return d.update(a, signedPeers, block, true)
+}
+
 func (d *Director) update(a *Actor, reported []string, block uint64, oldFormat bool) (*pool.UpdateResponse, error) {
 	w := d.W
 	d.n++
@@ -396,6 +424,7 @@ func (d *Director) update(a *Actor, reported []string, block uint64, oldFormat b
 	}
 	op := fmt.Sprintf("#%d update(%s peers=%v)", d.n, a.Name, w.names(reported))
 	led := d.ledger()
+	balBefore := d.balances()
 	hostsBefore := w.nextSeq()
 	t0 := time.Now()
 	ctx, cancel := d.ctx()
@@ -406,8 +435,15 @@ func (d *Director) update(a *Actor, reported []string, block uint64, oldFormat b
 		op = strings.Replace(op, "update(", "update[old-format signature](", 1)
 		nonce := d.nonce(a.ID)
 		req := pool.UpdateRequest{Peers: reported, PeerInfo: PeerInfos(reported), BlockNumber: block}
+		if d.tamper != "" {
+			req.PeerInfo = PeerInfos([]string{d.tamper})
+			op = strings.Replace(op, "update(", "update[unsigned peers_info names "+w.N(d.tamper)+"](", 1)
+		}
 		args := a.Signed("vipnode_update", nonce, oldUpdatePayload{Peers: reported, BlockNumber: block})
 		args[3] = req
+		// only what the deprecated signature covers may be acted on: (peers, block_number); the pool
+		// derives tracked peers from peers_info, which that signature does not cover
+		reported = nil
 		var r pool.UpdateResponse
 		if err = a.Call(ctx, &r, "vipnode_update", args...); err == nil {
 			resp = &r
@@ -419,6 +455,19 @@ func (d *Director) update(a *Actor, reported []string, block uint64, oldFormat b
 	t1 := time.Now()
 	d.logf("%s -> %v", op, err)
 
+	if err != nil && !isLowBalance(err) && d.on["C02F"] {
+		// a failed keep-alive is all or nothing: no balance moved
+		if after := d.balances(); after != balBefore {
+			d.W.S.Violate("all_or_nothing", "a keep-alive that failed moved balances", "%s failed with %q but balances changed:\n%s", op, err, diffLines(balBefore, after))
+		}
+	}
+	if (err == nil || isLowBalance(err)) && d.on["C02F"] {
+		// an accepted keep-alive debits the client by exactly the sum its peers were credited, also when
+		// the credit of one peer could not be written
+		if after := d.ledger(); after.getters.Cmp(led.getters) != 0 {
+			d.W.S.Violate("exact_sum", "an accepted keep-alive debited the client by something other than the sum credited to its peers", "%s: credit sum went from %s to %s; balances:\n%s", op, led.getters, after.getters, diffLines(balBefore, d.balances()))
+		}
+	}
 	if isVerifyFailed(err) {
 		d.bad("C04", "verify", "correctly signed fresh request refused", "%s: %v", op, err)
 		d.checkLedger(led, op, new(big.Int), "a refused request")
@@ -510,6 +559,15 @@ func (d *Director) update(a *Actor, reported []string, block uint64, oldFormat b
 		d.bad("C03", "min_balance", who, "%s: spendable after the charge %s, min %v, charge %s, got %v", op, spendAfter, d.minBalance(), charged, err)
 	case err != nil:
 		d.bad("C04", "verify", "correctly signed fresh request refused", "%s: %v", op, err)
+	}
+	if d.tamper != "" {
+		if ps, e := w.Inner.NodePeers(nid); e == nil {
+			for _, pn := range ps {
+				if string(pn.ID) == d.tamper && !containsID(active, pn.ID) {
+					d.bad("C04", "verify", "old-format keep-alive acts on the unsigned peers_info", "%s: %s is now a tracked (billable) peer of %s although the signature does not cover it", op, w.N(d.tamper), a.Name)
+				}
+			}
+		}
 	}
 	if err == nil && resp != nil {
 		// reply contents (C11 mapping, C02 balance)
